@@ -11,6 +11,7 @@ package c20old
 import (
 	"context"
 	"errors"
+	"runtime"
 	"testing"
 	"time"
 
@@ -137,4 +138,71 @@ func prev(p Plan, i int) any {
 
 func TestSleepOldTimers(t *testing.T) {
 	vk.Run(t, suite, "sleep-old-timers", 200, genPlan, run)
+}
+
+// ---------------------------------------------------------------- a ticker whose callback runs late (real clock)
+//
+// On the fake clock a timer callback is never late. Here the only P is kept busy for two to three
+// periods, so the tick that falls due meanwhile is delivered late. Ticks carry the time at which they
+// were sent and the next one is scheduled from there, so "consecutive ticks are at least d - jitter
+// apart" holds for the stamps however loaded the machine is (a lower bound only: sound on the real clock).
+
+type StarvedPlan struct {
+	DUs    int `json:"d_us"`
+	JUs    int `json:"j_us"`
+	Rounds int `json:"rounds"`
+	SpinX  int `json:"spin_x"` // busy for SpinX/2 periods per round
+}
+
+func genStarved(t *rapid.T) StarvedPlan {
+	d := rapid.SampledFrom([]int{2000, 4000}).Draw(t, "d")
+	return StarvedPlan{DUs: d, JUs: rapid.SampledFrom([]int{0, d / 8, d / 2}).Draw(t, "j"), Rounds: rapid.IntRange(4, 12).Draw(t, "rounds"), SpinX: rapid.IntRange(4, 7).Draw(t, "spinx")}
+}
+
+func runStarved(p StarvedPlan) (vk.Outcome, error) {
+	var out vk.Outcome
+	d, j := us(p.DUs), us(p.JUs)
+	old := runtime.GOMAXPROCS(1)
+	defer runtime.GOMAXPROCS(old)
+	tk := xtime.NewJitterTicker(d, j)
+	defer tk.Stop()
+	var prev time.Time
+	check := func(ts time.Time, what string) error {
+		if !prev.IsZero() {
+			if gap := ts.Sub(prev); gap < d-j {
+				return vk.Violf("tick-spacing", "%s: consecutive ticks %v apart, less than d - jitter = %v (d=%v jitter=%v; the previous tick was delivered late because the only P was busy)", what, gap, d-j, d, j)
+			}
+		}
+		prev = ts
+		return nil
+	}
+	for round := 0; round < p.Rounds; round++ {
+		select {
+		case ts := <-tk.C:
+			if err := check(ts, "before the busy phase"); err != nil {
+				return out, err
+			}
+		case <-time.After(10 * time.Second):
+			return out, vk.Violf("no-tick", "no tick within 10 s (d=%v)", d)
+		}
+		busyUntil := time.Now().Add(d * time.Duration(p.SpinX) / 2)
+		for time.Now().Before(busyUntil) {
+		}
+		for k := 0; k < 2; k++ { // the late tick and the one after it
+			select {
+			case ts := <-tk.C:
+				if err := check(ts, "after the busy phase"); err != nil {
+					return out, err
+				}
+			case <-time.After(10 * time.Second):
+				return out, vk.Violf("no-tick", "no tick within 10 s after the busy phase (d=%v)", d)
+			}
+		}
+	}
+	out.NonTrivial, out.Execs = true, p.Rounds
+	return out, nil
+}
+
+func TestTickerStarved(t *testing.T) {
+	vk.Run(t, suite, "ticker-starved", 12, genStarved, runStarved)
 }
